@@ -91,6 +91,15 @@ def main():
         meta["demo_subdir"] = sub
         meta["demo_how"] = "from a checkout of never-lang/never with the patch applied and built into _build: place demo/ at seed/%s/demo and run seed/%s/demo/run.sh from the repository root (or set NEVER / NEVER_BIN to the built binary)" % (sub, sub)
         meta["needs_to_manifest"] = (m.group(1).strip()[:800] if m else readme[:800])
+        # keep the results of checks run earlier against this seed and not re-run now
+        oldp = os.path.join(VERIF, "seeded", name, "meta.json")
+        if os.path.exists(oldp):
+            try:
+                old = json.load(open(oldp)).get("ran", [])
+                now = {r["check"] for r in meta["ran"]}
+                meta["ran"] = [r for r in old if r["check"] not in now] + meta["ran"]
+            except Exception:
+                pass
         if confirmed:
             dst = os.path.join(VERIF, "seeded", name)
             shutil.rmtree(dst, ignore_errors=True)
